@@ -658,6 +658,9 @@ func (ps *parseStream) one(raw string, prep, ansi bool, origin string, evalOK bo
 	f := failure{text: raw, mode: mode, prep: prep, ansi: ansi, witness: origin == "witness"}
 	r := tryParse(raw, prep, ansi)
 	sres := scanOp(o, raw, prep, ansi)
+	if r.panicked == nil {
+		lalrOp(o, raw, prep, ansi) // the driver loop + tables against the Lean model of them
+	}
 	switch {
 	case r.panicked != nil:
 		o.Count("parse:panic")
@@ -694,8 +697,8 @@ func (ps *parseStream) one(raw string, prep, ansi bool, origin string, evalOK bo
 		ps.fail("parse_total:missing_error", f)
 	}
 	if sres.uncat {
-		// not a law of C18 as stated (a statement list is returned), but recorded: goyacc treats the negative
-		// token code of an unrecognised operator as "no lookahead" and skips it.
+		// (*Lexer).Lex hands an Uncategorized token over as a character the grammar does not know (F33 repaired):
+		// a text with one cannot be accepted unless a NUL character ended the input before it.
 		o.Count("parse.accepted_text_with_unrecognised_operator")
 	}
 	types := make([]string, 0, len(r.stmts))
@@ -974,6 +977,11 @@ func (ps *parseStream) plan(n int) (plan []job) {
 		default: // external-command statement
 			plan = append(plan, ps.job(genExternal(g), prep, ansi, "external_command", false))
 		}
+	}
+	// token-level damage with the whole vocabulary of the grammar (after the others: their random streams stay as they were)
+	for i := 0; i < n/5; i++ {
+		prep, ansi := g.Intn(2) == 0, g.Intn(2) == 0
+		plan = append(plan, ps.job(genTokenSoup(g, ps.corpus, prep, ansi), prep, ansi, "token_soup", false))
 	}
 	return plan
 }
